@@ -482,6 +482,8 @@ def bfs(root, letters, depth, step):
 def ref_F(fl, F0, t0, t1):
     if fl.const is not None:
         return expm(fl.const * (t1 - t0)) @ F0
+    if t1 == t0:
+        return np.array(F0, float)
     sol = solve_ivp(
         lambda t, y: (fl.L(t, fl.x(t)) @ y.reshape(3, 3)).ravel(),
         (t0, t1),
